@@ -116,6 +116,9 @@ struct Cfg {
     migration: bool,
     skip_partial: bool,
     batch_size: usize,
+    /// memory pool limit in bytes (None: unbounded); with a limit the operator may spill or give up
+    #[serde(default)]
+    mem_limit: Option<usize>,
 }
 
 /// (k1, k2, v) domain indices, 0 = NULL
@@ -622,6 +625,8 @@ fn block_on<F: std::future::Future>(f: F) -> F::Output {
 }
 
 fn task_ctx(cfg: &Cfg) -> Arc<TaskContext> {
+    static RT_ENV: std::sync::OnceLock<Arc<datafusion_execution::runtime_env::RuntimeEnv>> = std::sync::OnceLock::new();
+    let rt = RT_ENV.get_or_init(|| RuntimeEnvBuilder::new().build_arc().expect("runtime env")); // unbounded pool, stateless here
     let mut sc = SessionConfig::new().with_batch_size(cfg.batch_size);
     {
         let o = &mut sc.options_mut().execution;
@@ -631,21 +636,41 @@ fn task_ctx(cfg: &Cfg) -> Arc<TaskContext> {
             o.skip_partial_aggregation_probe_ratio_threshold = 0.0;
         }
     }
-    let rt = RuntimeEnvBuilder::new().build_arc().expect("runtime env");
-    Arc::new(TaskContext::default().with_session_config(sc).with_runtime(rt))
+    let rt = match cfg.mem_limit {
+        None => Arc::clone(rt),
+        Some(l) => RuntimeEnvBuilder::new().with_memory_limit(l, 1.0).build_arc().expect("runtime env"),
+    };
+    Arc::new(TaskContext::new(
+        None,
+        "c06".to_string(),
+        sc,
+        Default::default(),
+        Default::default(),
+        Default::default(),
+        Default::default(),
+        rt,
+    ))
 }
 
-fn execute(c: &Case) -> Result<Vec<Vec<Val>>, String> {
+fn spill_count(plan: &Arc<dyn ExecutionPlan>) -> usize {
+    if plan.children().is_empty() {
+        return 0; // the in-memory source has no metrics
+    }
+    plan.metrics().and_then(|m| m.spill_count()).unwrap_or(0) + plan.children().iter().map(|c| spill_count(c)).sum::<usize>()
+}
+
+fn execute(c: &Case) -> Result<(Vec<Vec<Val>>, usize), String> {
     let plan = build_plan(c)?;
     let ctx = task_ctx(&c.cfg);
-    let parts = block_on(collect_partitioned(plan, ctx)).map_err(|e| format!("execution error: {e}"))?;
+    let parts = block_on(collect_partitioned(Arc::clone(&plan), ctx)).map_err(|e| format!("execution error: {e}"))?;
+    let spills = spill_count(&plan);
     let mut rows = vec![];
     for b in parts.iter().flatten() {
         for i in 0..b.num_rows() {
             rows.push(b.columns().iter().map(|col| val_at(col.as_ref(), i)).collect::<Vec<_>>());
         }
     }
-    Ok(rows)
+    Ok((rows, spills))
 }
 
 fn close(a: &Val, b: &Val) -> bool {
@@ -665,13 +690,32 @@ fn rows_equal(a: &[Val], b: &[Val]) -> bool {
 struct Stats {
     groups: usize,
     max_group_rows: usize,
+    /// spill files written by all operators of the plan
+    spills: usize,
+    /// ended in ResourcesExhausted under a memory limit (allowed: "a budget that lets it finish")
+    exhausted: bool,
 }
 
 fn run_case(c: &Case) -> Result<Stats, String> {
     let nk = n_keys(c.key);
     let mut expect = reference(c);
-    let got = execute(c)?;
+    let group_rows = |c: &Case| {
+        let mut m: BTreeMap<(u8, u8), usize> = BTreeMap::new();
+        for r in &c.rows {
+            *m.entry((if nk >= 1 { r.0 } else { 0 }, if nk == 2 { r.1 } else { 0 })).or_default() += 1;
+        }
+        m.values().max().cloned().unwrap_or(0)
+    };
+    let (got, spills) = match execute(c) {
+        Ok(x) => x,
+        Err(e) if c.cfg.mem_limit.is_some() && e.contains("Resources exhausted") => {
+            return Ok(Stats { groups: expect.len(), max_group_rows: group_rows(c), spills: 0, exhausted: true });
+        }
+        Err(e) => return Err(e),
+    };
     let stats = Stats {
+        spills,
+        exhausted: false,
         groups: expect.len(),
         max_group_rows: {
             let mut m: BTreeMap<(u8, u8), usize> = BTreeMap::new();
@@ -799,15 +843,30 @@ fn layouts(n: usize) -> Vec<(Vec<usize>, Vec<Vec<usize>>)> {
     out
 }
 
-fn configs(key: KeyTy, full: bool, topk: bool) -> Vec<Cfg> {
-    let modes = [
-        Mode::Single,
-        Mode::SinglePartitioned,
-        Mode::PartialFinal,
-        Mode::PartialFinalPartitioned,
-        Mode::PartialCoalesceReduceFinal,
-        Mode::PartialReduceCoalesceFinal,
-    ];
+/// Pool limits of the memory sweep; chosen from a measured outcome table (see evidence counters
+/// `mem_<limit>_*`): they span "cannot even start" .. "spills" .. "fits".
+const MEM_GRID: [usize; 8] = [1, 256, 1024, 2048, 4096, 8192, 16384, 65536];
+
+const ALL_MODES: [Mode; 6] = [
+    Mode::Single,
+    Mode::SinglePartitioned,
+    Mode::PartialFinal,
+    Mode::PartialFinalPartitioned,
+    Mode::PartialCoalesceReduceFinal,
+    Mode::PartialReduceCoalesceFinal,
+];
+
+#[derive(Clone, Copy, PartialEq, Eq, Debug)]
+enum Opts {
+    /// input order x migration x skip-partial x batch size, full product
+    Full,
+    /// at most one option differs from (Linear, migration on, skip off, batch 8192)
+    Dev1,
+    /// the default options only
+    Default,
+}
+
+fn configs(key: KeyTy, modes: &[Mode], opts: Opts) -> Vec<Cfg> {
     let mut orders = vec![OrderMode::Linear];
     if n_keys(key) >= 1 {
         orders.push(OrderMode::Sorted);
@@ -817,9 +876,6 @@ fn configs(key: KeyTy, full: bool, topk: bool) -> Vec<Cfg> {
     }
     let mut out = vec![];
     for mode in modes {
-        if topk && matches!(mode, Mode::PartialCoalesceReduceFinal | Mode::PartialReduceCoalesceFinal) {
-            continue; // the TopK rewrite is only produced for Single / Partial+Final shapes
-        }
         for order in &orders {
             for migration in [true, false] {
                 for skip_partial in [false, true] {
@@ -828,10 +884,14 @@ fn configs(key: KeyTy, full: bool, topk: bool) -> Vec<Cfg> {
                             + usize::from(!migration)
                             + usize::from(skip_partial)
                             + usize::from(batch_size != 8192);
-                        if !full && deviations > 1 {
-                            continue;
+                        let keep = match opts {
+                            Opts::Full => true,
+                            Opts::Dev1 => deviations <= 1,
+                            Opts::Default => deviations == 0,
+                        };
+                        if keep {
+                            out.push(Cfg { mode: *mode, order: *order, migration, skip_partial, batch_size, mem_limit: None });
                         }
-                        out.push(Cfg { mode, order: *order, migration, skip_partial, batch_size });
                     }
                 }
             }
@@ -846,6 +906,8 @@ fn layout_ok(c: &Case) -> bool {
         return false; // the planner never partitions an aggregation that has no group keys
     }
     match c.cfg.mode {
+        // Single consumes one partition (gathering two first adds nothing about the aggregate)
+        Mode::Single => np == 1,
         // a sorted SinglePartitioned input must have every key in one partition only
         Mode::SinglePartitioned if c.cfg.order != OrderMode::Linear => {
             let mut home: BTreeMap<(u8, u8), usize> = BTreeMap::new();
@@ -855,32 +917,37 @@ fn layout_ok(c: &Case) -> bool {
     }
 }
 
-fn explore(ctx: &Ctx) {
-    let n_one = ctx.pick(3, 4);
-    let n_two = ctx.pick(2, 3);
-    let n_other = ctx.pick(3, 3); // non-basic aggregates and non-Int64 key types
-    ctx.set_extra(
-        "bounds",
-        json!({
-            "rows_max": {"one key column, Int64, basic aggregates (full configuration product)": n_one,
-                         "two key columns": n_two, "other key types / single-aggregate plans / TopK": n_other},
-            "domain": "key in {NULL, k1, k2} per key type (second key in {NULL,'x'}), value in {NULL, 1, 2}",
-            "layouts": "all assignments of rows to <= 2 partitions x all cuts of each partition into <= 2 batches",
-            "modes": "Single, SinglePartitioned, Partial->Final, Partial->FinalPartitioned (hash RepartitionExec), Partial->Coalesce->PartialReduce->Final, Partial->PartialReduce->Coalesce->Final",
-            "options": "input order {Linear, Sorted, PartiallySorted(2 keys)} x enable_migration_aggregate {on,off} x skip-partial {off, rows=0 ratio=0} x batch_size {8192,1,2}; full product for Int64 keys with the basic aggregates, <= 1 deviation from the default otherwise",
-            "key_types": "none, Int64, Utf8, Utf8View, Dictionary(Int32,Utf8), Boolean, Decimal128(10,2), (Int64, Utf8)",
-            "topk": "min/max with LimitOptions(k, order) below SortExec(fetch k), k in 1..=3, Int64 and Utf8 keys",
-        }),
-    );
-    ctx.assume("memory is unbounded (no spilling) in this part; plans are built directly, not by the optimizer");
-    ctx.assume("avg/var_pop compared with relative tolerance 1e-12, everything else exactly; output compared as a multiset of rows");
+struct Sweep {
+    key: KeyTy,
+    aggs: AggSet,
+    n_lo: usize,
+    n_hi: usize,
+    modes: Vec<Mode>,
+    opts: Opts,
+    /// memory pool limits (bytes) to run under; empty = unbounded pool
+    mem: Vec<usize>,
+}
 
-    // work list: (key type, aggregate set, max rows, full config product)
-    let mut plans: Vec<(KeyTy, AggSet, usize, bool)> = vec![(KeyTy::I64, AggSet::Basic, n_one, true)];
+fn sweeps(ctx: &Ctx) -> Vec<Sweep> {
+    let t = ctx.thorough();
+    let mut v = vec![];
+    let all = ALL_MODES.to_vec();
+    let main3 = vec![Mode::Single, Mode::PartialFinal, Mode::PartialFinalPartitioned];
+    let sw = |key, aggs, n_lo, n_hi, modes: &Vec<Mode>, opts| Sweep { key, aggs, n_lo, n_hi, modes: modes.clone(), opts, mem: vec![] };
+    // Int64 key, basic aggregates
+    v.push(sw(KeyTy::I64, AggSet::Basic, 0, if t { 3 } else { 2 }, &all, Opts::Full));
+    v.push(sw(KeyTy::I64, AggSet::Basic, if t { 4 } else { 3 }, if t { 4 } else { 3 }, &all, Opts::Dev1));
+    // other key types
     for k in [KeyTy::NoKey, KeyTy::Utf8, KeyTy::Utf8View, KeyTy::Dict, KeyTy::Bool, KeyTy::Dec] {
-        plans.push((k, AggSet::Basic, n_other, false));
+        v.push(sw(k, AggSet::Basic, 0, 2, &all, if t { Opts::Full } else { Opts::Dev1 }));
+        v.push(sw(k, AggSet::Basic, 3, 3, if t { &all } else { &main3 }, if t { Opts::Dev1 } else { Opts::Default }));
     }
-    plans.push((KeyTy::I64Utf8, AggSet::Basic, n_two, true));
+    // two key columns (18-row alphabet)
+    v.push(sw(KeyTy::I64Utf8, AggSet::Basic, 0, 2, &all, if t { Opts::Full } else { Opts::Dev1 }));
+    if t {
+        v.push(sw(KeyTy::I64Utf8, AggSet::Basic, 3, 3, &main3, Opts::Dev1));
+    }
+    // one aggregate per plan
     for o in [
         One::Median,
         One::PercentileCont50,
@@ -891,45 +958,102 @@ fn explore(ctx: &Ctx) {
         One::VarPop,
         One::BoolAnd,
     ] {
-        plans.push((KeyTy::I64, AggSet::One(o), n_other, false));
+        v.push(sw(KeyTy::I64, AggSet::One(o), 0, 2, &all, Opts::Dev1));
+        v.push(sw(KeyTy::I64, AggSet::One(o), 3, 3, if t { &all } else { &main3 }, if t { Opts::Dev1 } else { Opts::Default }));
     }
-    for k in 1..=3 {
-        for key in [KeyTy::I64, KeyTy::Utf8] {
-            plans.push((key, AggSet::One(One::TopKMin(k)), n_other, true));
-            plans.push((key, AggSet::One(One::TopKMax(k)), n_other, true));
+    // memory limits: the operator may spill, emit early or give up (ResourcesExhausted), never answer wrongly
+    let grid: Vec<usize> = std::env::var("C06_MEM_GRID")
+        .ok()
+        .map(|g| g.split(',').filter_map(|x| x.parse().ok()).collect())
+        .unwrap_or_else(|| MEM_GRID.to_vec());
+    for key in [KeyTy::I64, KeyTy::Utf8] {
+        let mut s = sw(key, AggSet::Basic, 2, 3, &all, Opts::Dev1);
+        s.mem = grid.clone();
+        v.push(s);
+    }
+    // grouped TopK (the rewrite is produced for Single and Partial+Final shapes)
+    let topk_modes = vec![Mode::Single, Mode::SinglePartitioned, Mode::PartialFinal, Mode::PartialFinalPartitioned];
+    for k in 1..=(if t { 3 } else { 2 }) {
+        for key in if t { vec![KeyTy::I64, KeyTy::Utf8] } else { vec![KeyTy::I64] } {
+            for aggs in [AggSet::One(One::TopKMin(k)), AggSet::One(One::TopKMax(k))] {
+                v.push(sw(key, aggs, 0, 2, &topk_modes, if t { Opts::Full } else { Opts::Dev1 }));
+                v.push(sw(key, aggs, 3, 3, &topk_modes, if t { Opts::Dev1 } else { Opts::Default }));
+            }
         }
     }
+    v
+}
 
+fn explore(ctx: &Ctx) {
+    let sweeps = sweeps(ctx);
+    ctx.set_extra(
+        "bounds",
+        json!({
+            "sweeps": sweeps.iter().map(|s| format!("{:?} keys, {:?}: rows {}..={} x modes {:?} x options {:?}{}", s.key, s.aggs, s.n_lo, s.n_hi, s.modes, s.opts, if s.mem.is_empty() { String::new() } else { format!(" x memory limit {:?} bytes", s.mem) })).collect::<Vec<_>>(),
+            "domain": "key in {NULL, k1, k2} per key type (second key in {NULL,'x'}), value in {NULL, 1, 2}; all row sequences of each length",
+            "layouts": "all assignments of rows to <= 2 partitions x all cuts of each partition into <= 2 batches (Single mode: one partition)",
+            "options": "Full = input order {Linear, Sorted, PartiallySorted(2 keys)} x enable_migration_aggregate {on,off} x skip-partial {off, rows=0 ratio=0} x batch_size {8192,1,2}; Dev1 = at most one of them away from the default; Default = (Linear, on, off, 8192)",
+            "topk": "min/max with LimitOptions(k, order) on every aggregate stage below SortExec(fetch k)",
+        }),
+    );
+    ctx.assume("plans are built directly, not by the optimizer; memory-limited runs use GreedyMemoryPool with an absolute limit grid and real temporary files; a run that ends in ResourcesExhausted is counted, not compared");
+    ctx.assume("avg/var_pop compared with relative tolerance 1e-12, everything else exactly; output compared as a multiset of rows");
+
+    let sweeps: Vec<Sweep> = if std::env::var("C06_ONLY_MEM").is_ok() { sweeps.into_iter().filter(|s| !s.mem.is_empty()).collect() } else { sweeps };
+    let max_n = sweeps.iter().map(|s| s.n_hi).max().unwrap_or(0);
     let reported: Mutex<HashSet<String>> = Mutex::new(HashSet::new());
-    for n in 0..=n_one.max(n_two).max(n_other) {
+    for n in 0..=max_n {
+        if ctx.should_stop() {
+            break;
+        }
         let mut cases: Vec<Case> = vec![];
-        for (key, aggs, max_n, full) in &plans {
-            if n > *max_n {
+        for s in &sweeps {
+            if n < s.n_lo || n > s.n_hi {
                 continue;
             }
-            let topk = matches!(aggs, AggSet::One(One::TopKMin(_) | One::TopKMax(_)));
-            let cfgs = configs(*key, *full, topk);
-            for rows in enumerate::sequences(&alphabet(*key), n, n) {
+            let cfgs = configs(s.key, &s.modes, s.opts);
+            for rows in enumerate::sequences(&alphabet(s.key), n, n) {
                 for (part, cuts) in layouts(n) {
                     for cfg in &cfgs {
-                        let c = Case { key: *key, aggs: *aggs, cfg: *cfg, rows: rows.clone(), part: part.clone(), cuts: cuts.clone() };
-                        if layout_ok(&c) {
-                            cases.push(c);
+                        let mems: Vec<Option<usize>> = if s.mem.is_empty() { vec![None] } else { s.mem.iter().map(|m| Some(*m)).collect() };
+                        for mem_limit in mems {
+                            let mut cfg = *cfg;
+                            cfg.mem_limit = mem_limit;
+                            let c = Case { key: s.key, aggs: s.aggs, cfg, rows: rows.clone(), part: part.clone(), cuts: cuts.clone() };
+                            if layout_ok(&c) {
+                                cases.push(c);
+                            }
                         }
                     }
                 }
             }
         }
-        let failures: Mutex<Vec<(Case, String)>> = Mutex::new(vec![]);
-        cases.par_iter().for_each(|c| {
-            if ctx.should_stop() {
-                return;
-            }
+        // run in parallel, account sequentially (no lock traffic on the hot path)
+        let results: Vec<Option<Result<Stats, String>>> = cases
+            .par_iter()
+            .map(|c| {
+                if ctx.should_stop() {
+                    return None;
+                }
+                Some(mc_core::catch(|| run_case(c)).unwrap_or_else(Err))
+            })
+            .collect();
+        let mut per_mode: BTreeMap<String, u64> = BTreeMap::new();
+        let mut fs: Vec<(Case, String)> = vec![];
+        for (c, r) in cases.iter().zip(results) {
+            let Some(r) = r else { continue };
             ctx.eval();
-            match mc_core::catch(|| run_case(c)).unwrap_or_else(Err) {
+            match r {
                 Ok(st) => {
-                    ctx.count(&format!("mode_{:?}", c.cfg.mode), 1);
-                    // non-trivial: >= 2 groups and some group with >= 2 rows (so partial states really merge)
+                    *per_mode.entry(format!("mode_{:?}", c.cfg.mode)).or_default() += 1;
+                    if let Some(l) = c.cfg.mem_limit {
+                        let o = if st.exhausted { "resources_exhausted" } else if st.spills > 0 { "ok_spilled" } else { "ok_no_spill" };
+                        *per_mode.entry(format!("mem_{l:06}_{o}")).or_default() += 1;
+                        if st.exhausted {
+                            continue; // allowed outcome, nothing to compare
+                        }
+                    }
+                    // non-trivial: >= 2 groups and some group with >= 2 rows (so states of one group really combine)
                     if st.groups >= 2 && st.max_group_rows >= 2 {
                         ctx.nontrivial(c);
                         if c.cuts.len() == 2 && c.cfg.order != OrderMode::Linear && ctx.want_sample() {
@@ -937,20 +1061,24 @@ fn explore(ctx: &Ctx) {
                         }
                     }
                 }
-                Err(what) => failures.lock().unwrap().push((c.clone(), what)),
+                Err(what) => fs.push((c.clone(), what)),
             }
-        });
-        // deterministic reporting: one violation per (key type, aggregate set, mode, failure class), smallest case first
-        let mut fs = failures.into_inner().unwrap();
+        }
+        for (k, v) in per_mode {
+            ctx.count(&k, v);
+        }
+        // deterministic reporting: one violation per (key type, aggregate set, failure class), smallest case first
         fs.sort_by_key(|(c, _)| serde_json::to_string(c).unwrap());
         for (c, what) in fs {
-            let class = format!(
-                "{:?}/{:?}/{:?}/{}",
-                c.key,
-                c.aggs,
-                c.cfg.mode,
-                what.split(|ch: char| ch == ':' || ch == '[').next().unwrap_or("").chars().take(60).collect::<String>()
-            );
+            let norm: String = what
+                .split('[')
+                .next()
+                .unwrap_or("")
+                .chars()
+                .filter(|ch| !ch.is_ascii_digit())
+                .take(70)
+                .collect();
+            let class = format!("{:?}/{:?}/{}", c.key, c.aggs, norm);
             if !reported.lock().unwrap().insert(class) {
                 ctx.count("violations_of_an_already_reported_class", 1);
                 continue;
